@@ -84,8 +84,10 @@ func runC10(c *Ctx) {
 	runC10Synthetic(c)
 	runC10NilWrites(c)
 	runC10NilFields(c)
+	runC10PerObjectErrors(c)
 	p, fx := c.P, c.Fx
 	nilmapFacts = fx
+	nilmapProg = p
 	pkgClusterInfo := "pkg/scheduler/cache/cluster_info"
 	// ---- O1: hierarchy walks
 	sanitised := map[string]bool{"pkg/scheduler/api/queue_info.QueueInfo": true, pkgResShare + ".QueueAttributes": true}
@@ -724,18 +726,146 @@ func runC10NilWrites(c *Ctx) {
 // `obj.F != nil` (the rule found F21: a PVC without storage class crashed every snapshot).
 func runC10NilFields(c *Ctx) {
 	p, fx := c.P, c.Fx
+	nilmapProg = p
 	total := 0
-	for _, fn := range p.FuncsIn("pkg/scheduler") {
+	var fns []*ssa.Function
+	fns = append(fns, p.FuncsIn("pkg/scheduler")...)
+	fns = append(fns, p.FuncsIn("pkg/common/resources")...) // helpers the snapshot calls for every pod / claim
+	for _, fn := range fns {
 		if isTestdataOrMock(fn) {
 			continue
 		}
 		bad, n := nilFieldDerefs(fx, fn)
 		total += n
 		for _, in := range bad {
-			c.Viol("O8", "NILFIELD", funcKey(fn)+": *"+trunc(termOf(in.(*ssa.UnOp).X).String(), 80)+" behind a nil test", instrPos(in),
+			var through ssa.Value
+			switch x := in.(type) {
+			case *ssa.UnOp:
+				through = x.X
+			case *ssa.FieldAddr:
+				through = x.X
+			}
+			c.Viol("O8", "NILFIELD", funcKey(fn)+": *"+trunc(termOf(through).String(), 80)+" behind a nil test", instrPos(in),
 				"an optional (pointer) field of an API object is dereferenced without a nil test: an object that leaves the field unset makes the scheduling cycle panic")
 		}
 	}
 	c.Hold("O8", "NILFIELD", fmt.Sprintf("%d dereferences of optional API fields in pkg/scheduler are behind a nil test", total), 0, "no unguarded dereference")
 	c.Floor("O8", "NILFIELD optional-field dereferences", total, 3)
+}
+
+// runC10PerObjectErrors (O10): the snapshot is built from whatever the API holds. When ONE listed object cannot be
+// converted (a CSIStorageCapacity with an invalid selector, a malformed claim) that object is skipped; the snapshot —
+// and with it the scheduling cycle for every other workload — must not fail. Decided: in the snapshot functions of
+// cluster_info no error return inside a loop over listed objects is caused by a call that was given the loop's
+// element (a lister call that fails is a different matter: the informer is broken, not an object).
+func runC10PerObjectErrors(c *Ctx) {
+	fx := c.Fx
+	n := 0
+	for _, fn := range c.P.FuncsIn("pkg/scheduler/cache/cluster_info") {
+		if isTestdataOrMock(fn) || fn.Parent() != nil || !strings.HasPrefix(fn.Name(), "snapshot") {
+			continue
+		}
+		res := fn.Signature.Results()
+		if res.Len() == 0 || !types.Identical(res.At(res.Len()-1).Type(), errorType) {
+			continue
+		}
+		c.Analysed(funcKey(fn))
+		for _, b := range fn.Blocks {
+			ret, ok := b.Instrs[len(b.Instrs)-1].(*ssa.Return)
+			if !ok || !insideLoopBody(b) {
+				continue
+			}
+			ev := unspill(ret, res.Len()-1)
+			if k, isC := ev.(*ssa.Const); isC && k.IsNil() {
+				continue
+			}
+			n++
+			// the call(s) the returned error comes from (directly, or wrapped by fmt.Errorf / errors.*)
+			var culprit ssa.CallInstruction
+			var walk func(v ssa.Value, d int)
+			seenV := map[ssa.Value]bool{}
+			walk = func(v ssa.Value, d int) {
+				if v == nil || d == 0 || seenV[v] {
+					return
+				}
+				seenV[v] = true
+				switch x := v.(type) {
+				case *ssa.Extract:
+					walk(x.Tuple, d)
+				case *ssa.Phi:
+					for _, e := range x.Edges {
+						walk(e, d-1)
+					}
+				case *ssa.MakeInterface:
+					walk(x.X, d)
+				case *ssa.UnOp:
+					if a, isA := x.X.(*ssa.Alloc); isA {
+						for _, sv := range storedValues(a) {
+							walk(sv, d-1)
+						}
+					}
+				case *ssa.Call:
+					if x.Common().IsInvoke() {
+						return
+					}
+					cal := x.Common().StaticCallee()
+					if cal != nil && (funcPkgPath(cal) == "fmt" || strings.HasSuffix(funcPkgPath(cal), "errors")) {
+						for _, a := range x.Common().Args {
+							for _, sv := range valueSources(a, 3) {
+								if sv != a {
+									walk(sv, d-1)
+								}
+							}
+							walk(a, d-1)
+						}
+						return
+					}
+					for _, a := range x.Common().Args {
+						if derivesFromLoopElement(a, 3) {
+							culprit = x
+						}
+					}
+				}
+			}
+			walk(ev, 5)
+			_ = fx
+			what := ""
+			if culprit != nil {
+				what = termOf(culprit.Value()).String()
+			}
+			c.Check(culprit == nil, "O10", "MPT", fmt.Sprintf("%s: one object that cannot be processed does not fail the snapshot (return in loop, block %d)", funcKey(fn), b.Index), instrPos(ret), "in-loop error returns come from lister calls only",
+				"the snapshot fails when one listed object cannot be processed ("+trunc(what, 100)+"): a single malformed object of any tenant stops every scheduling cycle, for all workloads")
+		}
+	}
+	c.Hold("O10", "MPT", fmt.Sprintf("%d in-loop error returns of the snapshot functions examined", n), 0, "none caused by a per-object conversion")
+}
+
+// derivesFromLoopElement: v is (a field / conversion of) the element of a range loop.
+func derivesFromLoopElement(v ssa.Value, depth int) bool {
+	if depth == 0 {
+		return false
+	}
+	switch x := v.(type) {
+	case *ssa.Extract:
+		if _, isNext := x.Tuple.(*ssa.Next); isNext {
+			return true
+		}
+	case *ssa.UnOp:
+		if x.Op == token.MUL {
+			if ia, ok := x.X.(*ssa.IndexAddr); ok {
+				_ = ia
+				return loopHeaderOf(x.Block()) != nil
+			}
+			return derivesFromLoopElement(x.X, depth-1)
+		}
+	case *ssa.FieldAddr:
+		return derivesFromLoopElement(x.X, depth-1)
+	case *ssa.IndexAddr:
+		return loopHeaderOf(x.Block()) != nil
+	case *ssa.ChangeType:
+		return derivesFromLoopElement(x.X, depth-1)
+	case *ssa.MakeInterface:
+		return derivesFromLoopElement(x.X, depth-1)
+	}
+	return false
 }
